@@ -131,12 +131,27 @@ def run(ctx):
         raise AnalysisBroken("only %d ptr%%d[...] templates found in orcprogram-c.c" % nlit)
     asm = db.func("orc_compiler_c_assemble", "orcprogram-c")
     lits = [strip_casts(c.args()[1]).get("str", "") for c in asm.calls("orc_compiler_append_code") if len(c.args()) > 1 and strip_casts(c.args()[1]).k == "StringLiteral"]
-    iloops = [l for l in lits if re.search(r"for \(i", l)]
-    rep.check(len(iloops) >= 1 and all("for (i = 0; i < n; i++)" in l for l in iloops), "D1b-GEN-TEMPLATE", where(asm), "element-loop",
-              "element loop literal is `for (i = 0; i < n; i++)`", "generated element loop header changed: %s" % iloops)
-    jloops = [l for l in lits if re.search(r"for \(j", l)]
-    rep.check(all("for (j = 0; j < m; j++)" in l for l in jloops) and jloops, "D1b-GEN-TEMPLATE", where(asm), "row-loop",
-              "row loop literal is `for (j = 0; j < m; j++)`", "generated row loop header changed: %s" % jloops)
+    # loop headers: the literal is instantiated into a scratch translation unit and its loop shape is read from the AST
+    # (so `i++`, `i += 1`, `n > i` ... are all the same header)
+    hdrs = [l for l in lits if re.search(r"for \((i|j)\b", l)]
+    iloops = [l for l in hdrs if re.search(r"for \(i", l)]
+    jloops = [l for l in hdrs if re.search(r"for \(j", l)]
+    unit = ["void hdr_%d (int n, int m) { int i = 0, j = 0; %s ; } (void) i; (void) j; }" % (k, re.sub(r"%\*?s", "", l).replace("\n", " ").strip())
+            for k, l in enumerate(hdrs)]
+    shapes = {}
+    if hdrs:
+        from loops import counted
+        sdb = ctx.snippet_db("loophdr", "\n".join(unit) + "\n")
+        for k, l in enumerate(hdrs):
+            g = sdb.tu("loophdr").fn.get("hdr_%d" % k)
+            fl = [x for x in g.walk() if x.k == "ForStmt"] if g else []
+            shapes[l] = counted(fl[0]) if len(fl) == 1 else None
+    want_i = {"var": "i", "dir": "asc", "first": (None, 0), "last": ("n", -1)}
+    want_j = {"var": "j", "dir": "asc", "first": (None, 0), "last": ("m", -1)}
+    rep.check(len(iloops) >= 1 and all(shapes.get(l) == want_i for l in iloops), "D1b-GEN-TEMPLATE", where(asm), "element-loop",
+              "generated element loop runs i = 0 .. n-1", "generated element loop header changed: %s -> %s" % (iloops, [shapes.get(l) for l in iloops]))
+    rep.check(bool(jloops) and all(shapes.get(l) == want_j for l in jloops), "D1b-GEN-TEMPLATE", where(asm), "row-loop",
+              "generated row loop runs j = 0 .. m-1", "generated row loop header changed: %s -> %s" % (jloops, [shapes.get(l) for l in jloops]))
     rows = [l for l in lits if "ORC_PTR_OFFSET" in l]
     rep.check(rows and all(re.search(r"ptr%d = ORC_PTR_OFFSET\(%s, %s \* j\)", l) for l in rows), "D1b-GEN-TEMPLATE", where(asm), "row-pointer",
               "row pointers are ORC_PTR_OFFSET(array, stride * j)", "row pointer template changed: %s" % rows)
